@@ -3,9 +3,13 @@ package props
 import (
 	"fmt"
 	"math/rand"
+	"path/filepath"
 
+	"github.com/glebziz/fs_db"
 	"github.com/glebziz/fs_db/pkg/verif"
 
+	"verifharness/internal/dbx"
+	"verifharness/internal/refmodel"
 	"verifharness/internal/rt"
 	"verifharness/internal/seqrun"
 )
@@ -13,11 +17,12 @@ import (
 func init() {
 	register(&Prop{
 		ID: "C18", Level: "exploration",
-		Rule:        "the real per-key version list (core.Transaction / file: PushBack, LastBefore, Latest, IterateBeforeSeq+PopFront as the collector uses them, PopBack) against a linear-scan specification on a plain slice. Exhaustive part: every subset of {1..12} as the version list (4096 lists) x every snapshot point 0..13 x every collection horizon 0..13 followed by every snapshot point again; seeded part: interleavings of append / pop-front / pop-back / collect / probe on lists of up to 5000 versions over several keys. evaluations = (list, point) and (list, horizon, point) comparisons; distinct_nontrivial = distinct (list, horizon) pairs in which the collection removed at least one version plus distinct lists probed",
+		Rule:        "the real per-key version list (core.Transaction / file: PushBack, LastBefore, Latest, IterateBeforeSeq+PopFront as the collector uses them, PopBack) against a linear-scan specification on a plain slice. Exhaustive part: every subset of {1..12} as the version list (4096 lists) x every snapshot point 0..13 x every collection horizon 0..13 followed by every snapshot point again; seeded part: interleavings of append / pop-front / pop-back / collect / probe on lists of up to 5000 versions over several keys; database part (role db): 1-6 keys with 0-4 versions before and 0-4 after the Begin of a transaction that stays open (any level; autocommit writes and multi-key commits), collector pass + drain with it open: exactly min(a,1)+b content files per key remain on disk and all reads are unchanged; after it ended and another pass, one file per key. evaluations = (list, point) and (list, horizon, point) comparisons; distinct_nontrivial = distinct (list, horizon) pairs in which the collection removed at least one version plus distinct lists probed",
 		Assumptions: []string{"linear-scan specification"},
 		Roles: map[string]Role{
 			"exhaustive": {N: func(t string) int { return 16 }, Case: c18Exhaustive},
 			"seeded":     {N: func(t string) int { return tierN(t, 200, 20000) }, Case: c18Seeded},
+			"db":         {N: func(t string) int { return tierN(t, 48, 1200) }, Case: c18Db},
 		},
 		Post: func(r *rt.Run, tier string) {
 			r.Extra("exhaustive_part", "all 4096 subsets of {1..12} x points 0..13 x horizons 0..13")
@@ -246,4 +251,193 @@ func tailOf(s []string, n int) []string {
 		return s[len(s)-n:]
 	}
 	return s
+}
+
+// c18Db: the same "removes exactly" rule observed on a real database. One transaction T stays
+// open (its Begin is the horizon), keys get versions before and after it (autocommit writes and
+// multi-key commits of transactions begun after T), then a collector pass and a drain run with
+// T still open. A version is removed exactly when it has a successor not newer than the
+// horizon, so per key min(a,1)+b content files must remain (a versions before the horizon,
+// b after it); T and the autocommit caller must read what they read before the pass. After T
+// has ended and another pass has run, one file per key is left.
+func c18Db(tier string, seed int64, idx int, scratch string) rt.CaseResult {
+	var c rt.CaseResult
+	rng := seqrun.Rng(seed, "C18db", idx)
+	env, err := dbx.Open(dbx.Options{Mode: dbx.Inline, Dir: filepath.Join(scratch, "db"), SendDuration: sendDur(idx)})
+	if err != nil {
+		c.Violate("open-failed", err.Error(), nil)
+		return c
+	}
+	defer env.Close()
+	nkeys := 1 + rng.Intn(6)
+	type kv struct{ a, b int }
+	plan := make([]kv, nkeys)
+	var events []int // key index per write, -1 = Begin of T
+	for k := range plan {
+		plan[k] = kv{rng.Intn(5), rng.Intn(5)}
+		if plan[k].a+plan[k].b == 0 {
+			plan[k].b = 1
+		}
+	}
+	var before, after []int
+	for k, p := range plan {
+		for i := 0; i < p.a; i++ {
+			before = append(before, k)
+		}
+		for i := 0; i < p.b; i++ {
+			after = append(after, k)
+		}
+	}
+	rng.Shuffle(len(before), func(i, j int) { before[i], before[j] = before[j], before[i] })
+	rng.Shuffle(len(after), func(i, j int) { after[i], after[j] = after[j], after[i] })
+	events = append(append(append(events, before...), -1), after...)
+	level := idx % 4
+	replay := map[string]any{"seed": seed, "case": idx, "versions_before_and_after_the_horizon_per_key": fmt.Sprint(plan), "order": events, "level_of_open_transaction": level}
+	key := func(k int) string { return fmt.Sprintf("k%d", k) }
+	nver := map[int]int{}
+	latest := map[int]string{}
+	var tOpen fs_db.Tx
+	snapshot := map[int]string{} // what T must read (RR/SER): the state at its Begin
+	write := func(ks []int) error {
+		// one key: autocommit; several distinct keys: one commit of a transaction begun now
+		if len(ks) == 1 {
+			k := ks[0]
+			nver[k]++
+			latest[k] = fmt.Sprintf("c%d-%s-v%d", idx, key(k), nver[k])
+			return env.DB.Set(ctxBg, key(k), []byte(latest[k]))
+		}
+		w, err := env.DB.Begin(ctxBg, fs_db.IsoLevelReadCommitted)
+		if err != nil {
+			return err
+		}
+		for _, k := range ks {
+			nver[k]++
+			latest[k] = fmt.Sprintf("c%d-%s-v%d", idx, key(k), nver[k])
+			if err := w.Set(ctxBg, key(k), []byte(latest[k])); err != nil {
+				return err
+			}
+		}
+		return w.Commit(ctxBg)
+	}
+	for i := 0; i < len(events); i++ {
+		if events[i] == -1 {
+			tOpen, err = env.DB.Begin(ctxBg, verif.IsoLevel(level))
+			if err != nil {
+				c.Violate("begin-failed", err.Error(), replay)
+				return c
+			}
+			for k, v := range latest {
+				snapshot[k] = v
+			}
+			continue
+		}
+		// group a run of distinct keys (not crossing the Begin) into one commit now and then
+		ks := []int{events[i]}
+		if tOpen != nil && rng.Intn(3) == 0 {
+			seen := map[int]bool{events[i]: true}
+			for i+1 < len(events) && events[i+1] >= 0 && !seen[events[i+1]] && len(ks) < 3 {
+				i++
+				ks = append(ks, events[i])
+				seen[events[i]] = true
+			}
+		}
+		if err := write(ks); err != nil {
+			c.Violate("write-failed", err.Error(), replay)
+			return c
+		}
+	}
+	read := func(st fs_db.Store, k int) string {
+		b, err := st.Get(ctxBg, key(k))
+		if err != nil {
+			return "<" + string(seqrun.Class(err)) + ">"
+		}
+		return string(b)
+	}
+	countFiles := func() (int, error) {
+		if err := env.Drain(); err != nil {
+			return 0, err
+		}
+		fs, _, err := env.Walk(false)
+		return len(fs), err
+	}
+	total := 0
+	for _, p := range plan {
+		total += p.a + p.b
+	}
+	n0, err := countFiles()
+	if err != nil {
+		c.Inconclusive = append(c.Inconclusive, "drain/walk: "+err.Error())
+		return c
+	}
+	if n0 != total {
+		c.Violate("files-before-collection", fmt.Sprintf("%d content files on disk before any collector pass, %d versions were written", n0, total), replay)
+		return c
+	}
+	if err := env.Collect(); err != nil {
+		c.Violate("collector-error", err.Error(), replay)
+		return c
+	}
+	n1, err := countFiles()
+	if err != nil {
+		c.Inconclusive = append(c.Inconclusive, "drain/walk: "+err.Error())
+		return c
+	}
+	want := 0
+	for _, p := range plan {
+		if p.a > 0 {
+			want++
+		}
+		want += p.b
+	}
+	c.Evals++
+	if n1 != want {
+		what := "collected-too-little"
+		if n1 < want {
+			what = "collected-too-much"
+		}
+		c.Violate(what+" open-transaction", fmt.Sprintf("with a transaction open since the horizon, %d content files remain after a collector pass; exactly %d versions have no successor at or before the horizon (per key: the newest one before it and all after it); %d were written", n1, want, total), replay)
+		return c
+	}
+	for k := range plan {
+		c.Evals++
+		if g := read(env.DB, k); g != latest[k] {
+			c.Violate("read-changed-by-collection actor=auto", fmt.Sprintf("%s reads %q after the pass, want %q", key(k), g, latest[k]), replay)
+			return c
+		}
+		if level >= 2 {
+			w := snapshot[k]
+			if w == "" {
+				w = "<" + string(refmodel.NotFound) + ">"
+			}
+			if g := read(tOpen, k); g != w {
+				c.Violate("read-changed-by-collection actor=open-snapshot", fmt.Sprintf("%s read through the open transaction gives %q after the pass, want %q", key(k), g, w), replay)
+				return c
+			}
+		}
+	}
+	if n1 < n0 {
+		c.AddDistinct(fmt.Sprintf("db/keys=%d/level=%d/removed=%d/kept=%d", nkeys, level, n0-n1, n1))
+	}
+	if idx%2 == 0 {
+		err = tOpen.Commit(ctxBg)
+	} else {
+		err = tOpen.Rollback(ctxBg)
+	}
+	if err != nil {
+		c.Violate("end-of-open-transaction-failed", err.Error(), replay)
+		return c
+	}
+	if err := env.Collect(); err != nil {
+		c.Violate("collector-error", err.Error(), replay)
+		return c
+	}
+	n2, err := countFiles()
+	c.Evals++
+	if err == nil && n2 != nkeys {
+		c.Violate("collected-wrong-set no-open-transaction", fmt.Sprintf("%d content files remain after the transaction ended and another pass ran; %d keys have a value", n2, nkeys), replay)
+	}
+	if idx == 0 {
+		c.Sample = map[string]any{"role": "db", "plan": fmt.Sprint(plan), "files": []int{n0, n1, n2}}
+	}
+	return c
 }
